@@ -385,6 +385,32 @@ example :
       { id := "a", name := "GET", args := [[107]] }]).2 =
     [[okTok], [Tok.err 0], [Tok.err 0], [Tok.err 0], [Tok.err 1], [Tok.err 0], [Tok.bulk [118]]] := by decide +kernel
 
+/-! ## 5. The reply writer never panics and its buffer is bounded by what is written (work package F)
+
+  The writer side of the connection goroutine (redis/resp.go `type Writer`, Model/RespWriter.lean): whatever the
+  handlers write — payloads of any size, any number of calls without a Flush, a connection whose Write fails —
+  neither `w.buf[w.w] = b` nor `w.buf[:w.w]` goes out of range, and the buffer cannot be made larger than
+  `4096 + 2·(bytes pending at the end of a call)`: replies are flushed after every command, so a client
+  controls the buffer's size only through the size of the largest single reply it can provoke. -/
+
+theorem reply_writer_never_panics (cs : List RespWriter.Call) : RespWriter.run RespWriter.new cs ≠ .panic :=
+  C16.writer_never_panics cs
+
+theorem reply_writer_buffer_bounded (M : Nat) (cs : List RespWriter.Call) (s : RespWriter.Writer)
+    (hM : ∀ pre s1, pre <+: cs → RespWriter.run RespWriter.new pre = .ok s1 → s1.w ≤ M)
+    (e : RespWriter.run RespWriter.new cs = .ok s) :
+    s.w ≤ s.buf.size ∧ s.buf.size ≤ RespWriter.defaultSize + 2 * M :=
+  ⟨(C16.writer_growth_peak M cs s hM e).1, (C16.writer_growth_peak M cs s hM e).2.2⟩
+
+/-- a non-trivial run (two replies with a Flush in between, 10 bytes written in all) and its bound -/
+example : ∃ s, RespWriter.run RespWriter.new [.ok, .flush none, .bulkNull] = .ok s ∧ s.buf.size ≤ RespWriter.defaultSize + 2 * 10 := by
+  obtain ⟨s, e⟩ := C16.writer_total [.ok, .flush none, .bulkNull] (by decide)
+  refine ⟨s, e, ?_⟩
+  have h := C16.writer_growth [.ok, .flush none, .bulkNull] s e
+  have hl : ([RespWriter.Call.ok, .flush none, .bulkNull].flatMap Spec.RespWriterSpec.written).length = 10 := by decide +kernel
+  rw [hl] at h
+  exact h.2.2
+
 /- UNPROVED: nothing.  No finding: `reader_never_panics` holds for every source (the `.panic` branch of
    `readUtil` / `prevByte` is unreachable from `readCommand`). -/
 
